@@ -29,6 +29,7 @@ RULE = ("lattice x histories, every level a complete product.  VTI = grids (all 
         "judged).  A history is non-trivial if at least one array with >=2 distinct float32 values was decoded and "
         "compared (VTI) or at least one data row with a value column was parsed (log); distinct by (case, "
         "configuration, history)")
+RULE += " Extended in seeding rounds 6-7:  sizes and scales with long decimal expansions; logged signals sharing a tag or untagged."
 ASSUMPTIONS = ["pymoto.core_objects.get_init_str (diagnostic source-location string, ~1 ms per Signal/Module via "
                "inspect.stack) is replaced from outside by a constant during this check; it takes no part in the "
                "semantics under test",
